@@ -133,3 +133,32 @@ impl PathR {
     pub fn display(&self) -> u64 { unimplemented!() }
 }
 pub struct TreeStackEmptyError;
+
+// ---- Parent::set_dir: entering a directory ----
+pub struct VBeP { pub _opaque: u64 }
+pub struct VIndexQ { pub _opaque: u64 }
+// the subtree ids of the entries NAMED `name` in the current parent trees, in tree order (what the chain
+// `self.p_node(name).filter_map(|p| p.subtree.or_else(warn; None)).collect()` yields; p_node's per-tree step is unit p_node_lookup)
+pub uninterp spec fn NAMED_SUBTREES(trees: Seq<(PTree, usize)>, name: NameR) -> Seq<TreeIdW>;
+#[verifier::external_body]
+pub fn vsubtree_ids_of_named(trees: &mut Vec<(PTree, usize)>, name: &NameR) -> (r: Vec<TreeIdW>)
+    ensures r@ == NAMED_SUBTREES(old(trees)@, *name),
+            // p_node only moves the cursors forward: the trees themselves stay
+            final(trees)@.len() == old(trees)@.len(), forall|i: int| 0 <= i < old(trees)@.len() ==> (#[trigger] final(trees)@[i]).0 == old(trees)@[i].0,
+{ unimplemented!() }
+// Vec::sort + Vec::dedup on tree ids: the same set of ids
+#[verifier::external_body]
+pub fn vsort_ids(v: &mut Vec<TreeIdW>) ensures forall|x: TreeIdW| final(v)@.contains(x) <==> old(v)@.contains(x), { unimplemented!() }
+#[verifier::external_body]
+pub fn vdedup_ids(v: &mut Vec<TreeIdW>) ensures forall|x: TreeIdW| final(v)@.contains(x) <==> old(v)@.contains(x), { unimplemented!() }
+pub uninterp spec fn TREE_OF(id: TreeIdW) -> PTree;
+// ids.into_iter().filter_map(|id| match Tree::from_backend(be, index, id) { Ok(tree) => Some((tree, 0)), Err(_) => None }).collect():
+// every loaded tree is the tree of one of the ids (a tree that fails to load is skipped with a warning), cursor at its start
+#[verifier::external_body]
+pub fn vload_trees(be: &VBeP, index: &VIndexQ, ids: Vec<TreeIdW>) -> (r: Vec<(PTree, usize)>)
+    ensures forall|i: int| 0 <= i < r@.len() ==> (#[trigger] r@[i]).1 == 0 && exists|j: int| 0 <= j < ids@.len() && r@[i].0 == TREE_OF(#[trigger] ids@[j]),
+{ unimplemented!() }
+#[verifier::external_body]
+pub fn vmem_replace_trees(dest: &mut Vec<(PTree, usize)>, src: Vec<(PTree, usize)>) -> (r: Vec<(PTree, usize)>)
+    ensures r == *old(dest), *final(dest) == src,
+{ unimplemented!() }
